@@ -428,6 +428,20 @@ pub fn decorate_for_world_c(prop: &str, plan: &mut Plan) {
     plan.writer.verbosity = u8::from(prop == "C13" && r.chance(1, 3));
     // one run in twelve of C12 takes its history from a real simulated run of runner::Basic
     plan.writer.real_runner = prop == "C12" && r.chance(1, 12);
+    if prop == "C12" && !plan.writer.real_runner && r.chance(1, 6) {
+        // scenarios of different features / rules sharing name (and, for equal shapes, line):
+        // counters must key scenarios by identity, not by name
+        for f in &mut plan.features {
+            for (i, s) in f.scenarios.iter_mut().enumerate() {
+                s.name = format!("same{i}");
+            }
+            for rl in &mut f.rules {
+                for (i, s) in rl.scenarios.iter_mut().enumerate() {
+                    s.name = format!("same{i}");
+                }
+            }
+        }
+    }
 }
 
 pub fn stack_name(prop: &str, plan: &Plan) -> String {
